@@ -343,6 +343,75 @@ def check_C17(tier):
 
 
 # ------------------------------------------------------------------------------------------------
+# resources / robustness
+
+def res_check(prop, tier, kind, classes, slack_k, rule, assumptions, shards=8):
+    out = Outcome(prop, tier, "exploration")
+    wd = vlib.workdir(prop)
+    logs = sess_logs(wd, "res", kind, tier, shards=shards)
+    consts = {"Factor": 256, "SlackK": slack_k, "LimitMs": 30000}
+    res = vlib.parallel([(lambda pth=pth: vlib.validate_trace("Trace_Resource.tla", pth, wd, consts)) for pth, _ in logs], nproc=8)
+    classes_seen = set()
+    evals = 0
+    for (pth, info), r in zip(logs, res):
+        out.add_trace(r, runs=info.get("runs", 0))
+        evals += info.get("runs", 0)
+        r["verdicts"] = [v for v in r["verdicts"] if v["class"] in ("TOOL",) + classes]
+        out.verdicts(r)
+        with open(pth) as f:
+            for line in f:
+                if '"Return"' in line[:40] or '"ev":"Return"' in line:
+                    e = json.loads(line)
+                    if e.get("ev") == "Return":
+                        classes_seen.add((e.get("class") or e.get("cfg") or "", e.get("state", ""), e.get("entry", ""), e.get("res")))
+    out.cov["evaluations"] = evals
+    out.cov["distinct_nontrivial"] = len(classes_seen)
+    out.cov["children_died_or_hung"] = sum(i.get("died", 0) for _, i in logs)
+    for _ in range(1):
+        sample_events(out, logs[0][0], ("Call", "Return"), n=4)
+    out.assumptions = assumptions
+    return out, logs, rule
+
+
+RES_ASSUME = ["the observation (the child process survives, the allocator counter, the wall clock) is a measurement made by the harness; "
+              "the TLA+ specification contributes the allowed alphabet (no action for panic / death / timeout) and the envelope as an invariant",
+              "overflow-checks and debug-assertions are enabled in the harness build, so an arithmetic wrap is a panic",
+              "counting global allocator; RLIMIT_AS 12 GiB; 2 MiB decode thread stack"]
+
+
+def check_C03(tier):
+    out, logs, rule = res_check("C03", tier, "hostile", ("RES",), 48 * 1024 + 256,
+        "state x malformed-class product: every session state (server 5, client 9) x ~700 hostile messages (commands with 0..3 values and "
+        "every argument of every wrong type, @setDataFrame shapes, user-control bodies of every short length, control messages at "
+        "their limits, AMF0 garbage, random bodies on random ids) in whole / 1-byte / random fragmentation; bare deserializer: header "
+        "classes (shrinking length, extended delta below threshold, compressed header on unseen csid, many announced 16 MiB messages, "
+        "zero-length fmt-3 runs) + seeded byte mutations of valid streams; message decoder; handshake garbage; distinct = (class, state, result)",
+        RES_ASSUME)
+    return out.finish(rule=rule)
+
+
+def check_C14(tier):
+    out, logs, rule = res_check("C14", tier, "amfdeep", ("RES",), 1024 + 256,
+        "nesting skeletons = all words of length <= 3 over {strict-array header, object-property prefix, ECMA header} pumped to depths "
+        "10 .. 10^6 (and length/5 for 16 MiB), lying count/length headers (0, 1, 2^31, 2^32-1; 65535 with 0..3 bytes following), flat "
+        "one-byte-value inputs up to 1 MiB (16 MiB in thorough), seeded marker garbage; decoded AND dropped on a thread with a 2 MiB stack",
+        RES_ASSUME)
+    return out.finish(rule=rule)
+
+
+def check_C19(tier):
+    out, logs, rule = res_check("C19", tier, "config", ("RES", "CFG"), 48 * 1024 + 256,
+        "class product: chunk size {0,1,2,127,128,129,4096,2^31-2,2^31-1,2^31,2^31+1,2^32-1} at every entry point (serializer, "
+        "deserializer, both session configs, inbound SetChunkSize), window/bandwidth {0,1,2^31,2^32-1}, payload length around "
+        "16,777,215, string/name length around 65,535, version strings; a refusal class must return an error, an accepted class must "
+        "return ok and then still carry messages (round trip / ping echo / decodable media), all inside the time/memory envelope",
+        RES_ASSUME + ["the 'still works' probe after an accepted value is a small round trip evaluated in the harness; the full C01/C02 "
+                      "oracles run for the accepted boundary values in the C01/C02/C18 checks (chunk-size and window tables include them)"])
+    out.cov["exhaustive"] = True
+    return out.finish(rule=rule)
+
+
+# ------------------------------------------------------------------------------------------------
 # handshake
 
 def hs_check(prop, tier, kind, cls, rule, level):
